@@ -869,6 +869,34 @@ theorem execScript_skip_wins (tcs : List TC) (c : Int) (outs : List Out)
   | some i =>
     exact ⟨i, by simp [hc, hf], findIdx_spec k outs i hf⟩
 
+/-- since fix 03b50b5: a parsed output that carries the skip code wins also over a script that ran into the time limit -/
+theorem execScript_skip_wins_timeout (tcs : List TC) (outs : List Out)
+    (h : ∃ o ∈ outs, o.status = .code (scriptSkip tcs)) :
+    ∃ i, execScript tcs .timeout outs = some (.skipped i) ∧
+      ∃ o, outs[i]? = some o ∧ o.status = .code (scriptSkip tcs) := by
+  unfold execScript
+  generalize scriptSkip tcs = k at *
+  obtain ⟨o, ho, hs⟩ := h
+  cases hf : outs.findIdx? (fun o => o.status = .code k) with
+  | none =>
+    rw [List.findIdx?_eq_none_iff] at hf
+    have := hf o ho
+    simp [hs] at this
+  | some i =>
+    exact ⟨i, by simp [hf], findIdx_spec k outs i hf⟩
+
+/-- ... and without one the timeout is reported as before -/
+theorem execScript_timeout_no_skip (tcs : List TC) (outs : List Out)
+    (h : ∀ o ∈ outs, o.status ≠ .code (scriptSkip tcs)) :
+    execScript tcs .timeout outs = some (.timeout true 0 [⟨.timeout, false, false⟩]) := by
+  unfold execScript
+  generalize scriptSkip tcs = k at *
+  have hf : outs.findIdx? (fun o => o.status = .code k) = none := by
+    rw [List.findIdx?_eq_none_iff]
+    intro o ho
+    simpa using h o ho
+  simp [hf]
+
 theorem execScript_skipped_cause (tcs : List TC) (script : Status) (outs : List Out) (i : Nat)
     (h : execScript tcs script outs = some (.skipped i)) :
     (script = .code (scriptSkip tcs) ∧ i = 0) ∨
@@ -897,7 +925,17 @@ theorem execScript_skipped_cause (tcs : List TC) (script : Status) (outs : List 
       exact Or.inl ⟨by rw [hc], h.symm⟩
     · simp only [hc, if_false] at h
       exact Or.inr (key i h)
-  | timeout => simp at h
+  | timeout =>
+    simp only at h
+    cases hf : outs.findIdx? (fun o => o.status = .code k) with
+    | some j =>
+      rw [hf] at h
+      simp at h
+      subst h
+      exact Or.inr (findIdx_spec k outs j hf)
+    | none =>
+      rw [hf] at h
+      simp at h
   | unknown => simp at h
   | skipped => exact Or.inr (key i h)
   | detached => exact Or.inr (key i h)
